@@ -190,7 +190,15 @@ func (w *World) drop(uuid string) {
 // Applicable tells whether op makes sense in the current world (slot exists...).
 func (w *World) Applicable(op Op) bool {
 	switch op.Op {
-	case "upd", "del", "get", "flush", "flushc", "updnan":
+	case "flush", "flushc":
+		// Flush writes the object it is given: only the current version of a stored object is
+		// passed (flushing anything else is outside every statement)
+		if op.Slot >= len(w.Slots) {
+			return false
+		}
+		_, stored := w.M.Objs[w.Slots[op.Slot]]
+		return stored
+	case "upd", "del", "get", "updnan":
 		return op.Slot < len(w.Slots)
 	case "abandon":
 		return w.Cfg.Async == 0
@@ -247,6 +255,23 @@ func (w *World) Apply(op Op) {
 		w.LastClass = classify(err)
 		if err == nil {
 			w.fail("unserialisable-accepted", "InsertOrUpdate of an object holding NaN (no JSON form) returned nil")
+		}
+	case "flush", "flushc":
+		uuid := w.Slots[op.Slot]
+		r := cloneRec(w.M.Objs[uuid])
+		r.Initialize(uuid)
+		var err error
+		if op.Op == "flush" {
+			err = w.DB.Flush(r)
+		} else {
+			err = w.DB.FlushAndCommit(r)
+		}
+		if err != nil {
+			if w.Tolerant {
+				w.LastErr = err
+				return
+			}
+			w.fail("flush-err", fmt.Sprintf("%s of a stored object returned %v", op.Op, err))
 		}
 	case "del":
 		uuid := w.Slots[op.Slot]
